@@ -71,6 +71,9 @@ def run(ctx):
         ok = not [b for b in sp if b in r]
     rep.check(r1, ok, 'parse-before-reply', 'http_parse(pstate, data) runs on the whole segment before the state is tested: %s' % ok, rp.loc(pc[0][0]) if pc else '')
 
+    okc, kc, dc = insert_complete(F)
+    rep.check(r1, okc, kc, 'over TCP the parser state of every validated flow is kept between segments (a request completed by a later segment is answered): ' + dc,
+              '%s:%d' % (F.fn('proto::tcb::add_tcb').file, F.fn('proto::tcb::add_tcb').line))
     # FSM extraction
     f, m, verb = http_fsm(F)
     start = (verb + 1,)
@@ -153,4 +156,6 @@ def run(ctx):
     nw = pi.calls(r'Smack::new$')
     cs = [const_val(pi.argv(b, 1)) for b, _ in nw]
     rep.check(r4, cs == [0], 'dispatcher-is-case-sensitive', 'the protocol matcher is built with nocase=%s (an unknown method differing from a known one only by letter case must not be dispatched)' % cs, pi.loc(nw[0][0]) if nw else '')
+    dispatch_sound(ctx, 'C13', 'a request reaches the HTTP responder')
+
 
